@@ -8,17 +8,18 @@ mkdir -p bin
 tools/mkoverlay.sh "bin/overlay-$id.json"
 # E3: checks that own map iteration order / scheduling get rewritten copies of
 # the product packages (from /repo's current tree) added to the overlay.
-maprange=""; syncpk=""
+maprange=""; syncpk=""; logpk=""
 case "$id" in
   C07) maprange="compile" ;;
+  C16) syncpk="protocol/binary,internal/frame,internal/plugin,internal/concurrent"; logpk="plugin" ;;
   C18) syncpk="protocol/binary,internal/frame,internal/plugin,internal/concurrent" ;;
   C20) maprange="compile,internal/compare,internal/git" ;;
   C10) maprange="compile,gen,internal/plugin,plugin" ;;
 esac
-if [ -n "$maprange$syncpk" ]; then
-  [ -x bin/overlaygen ] || go build -o bin/overlaygen ./tools/overlaygen || exit 2
+if [ -n "$maprange$syncpk$logpk" ]; then
+  go build -o bin/overlaygen ./tools/overlaygen || exit 2
   rm -rf "bin/ov-$id"
-  if ! bin/overlaygen -maprange "$maprange" -sync "$syncpk" -dir "$(pwd)/bin/ov-$id" -base "bin/overlay-$id.json" -out "bin/overlay-$id.json" > "bin/overlaygen-$id.json" 2> "bin/build-$id.log"; then
+  if ! bin/overlaygen -maprange "$maprange" -sync "$syncpk" -log "$logpk" -dir "$(pwd)/bin/ov-$id" -base "bin/overlay-$id.json" -out "bin/overlay-$id.json" > "bin/overlaygen-$id.json" 2> "bin/build-$id.log"; then
     echo "HARNESS-ERROR check=$id overlay generation failed (unowned nondeterminism or /repo does not type-check):" >&2
     cat "bin/overlaygen-$id.json" "bin/build-$id.log" >&2
     exit 2
